@@ -1,10 +1,10 @@
 (* C10 - Progress: caller-frame steps advance, no state repeats, walks terminate.
-   (DWARF / no-data modules; the PE generic path is the known finding S9b.) *)
+   Every module kind of the model: no data, DWARF, PE (after the repairs of S9b and S9c). *)
 From FH Require Import Consts Word X86 A64 Unwinder X86Unw A64Unw X86Exec A64Exec X86Walk A64Walk.
 Open Scope N_scope.
 
 (* x86_64: every successful caller-frame step, whichever path served it (cache hit, computed
-   rule, fallback, generic DWARF), with any cache: the stack pointer does not decrease, and if it
+   rule, fallback, generic DWARF, interpreted PE unwind codes), with any cache: the stack pointer does not decrease, and if it
    stays the same the reported address is the word below it and differs from the current address. *)
 Theorem C10_caller_step_x86 : forall u c x rg m ra,
   o_res _ _ (unwind_frame_x u c (RA x) rg m) = Ok (Some ra) ->
